@@ -13,7 +13,8 @@ FILE_CHECKS = [("backend_req_handler.rs", ["C04", "C05", "C07", "C09"]), ("front
                ("vring.rs", ["C12", "C14"]), ("bitmap.rs", ["C15"]), ("vhost-user-backend/src/lib.rs", ["C16"]),
                ("vhost-user-backend/src/backend.rs", ["C14"]), ("vhost_kern", ["C19"]), ("vhost/src/backend.rs", ["C14", "C19"]),
                ("vhost_user/mod.rs", ["C08", "C05", "C20"])]
-res = {}
+RES = os.path.join(D, "results.json")
+res = json.load(open(RES)) if os.path.exists(RES) else {}
 for name in sorted(os.listdir(D)):
     p = os.path.join(D, name, "patch.diff")
     if not os.path.exists(p) or (want and not any(name.startswith(w) for w in want)):
